@@ -277,8 +277,10 @@ pub fn split_into_fields(
     }
 
     if ifs_chars.is_empty() {
+        // a run of blanks separates two fields, it does not hold empty ones
         return line
             .split(&[' ', '\t', '\n'][..])
+            .filter(|x| !x.is_empty())
             .map(|x| x.to_string())
             .collect();
     } else {
